@@ -390,17 +390,26 @@ def _feasible(evs) -> bool:
                 v = st.value
                 if isinstance(v, ast.Constant) and isinstance(v.value, bool):
                     env[(fid, tgt)] = v.value
+                elif isinstance(v, ast.Constant) and isinstance(v.value, int) and v.value == 0:
+                    env[(fid, tgt)] = "zero"  # a counter that starts at 0
                 elif isinstance(v, ast.Call) and id(v) in last_ret:
                     env[(fid, tgt)] = last_ret[id(v)]
                 elif isinstance(v, ast.Name) and (fid, v.id) in env:
                     env[(fid, tgt)] = env[(fid, v.id)]
                 else:
                     env.pop((fid, tgt), None)
+            elif isinstance(st, ast.AugAssign) and isinstance(st.target, ast.Name) and isinstance(st.op, ast.Add) \
+                    and isinstance(st.value, ast.Constant) and isinstance(st.value.value, int) and st.value.value > 0 \
+                    and env.get((fid, st.target.id)) in ("zero", "pos"):
+                env[(fid, st.target.id)] = "pos"  # counter += positive constant
             else:
                 env.pop((fid, e.data.get("root")), None)
         elif e.kind == "return" and e.frame.call_node is not None:
             v = e.data.get("value")
-            if isinstance(v, ast.Constant) and isinstance(v.value, bool):
+            cnt = _counter_test(v, fid, env)
+            if cnt is not None:
+                last_ret[id(e.frame.call_node)] = cnt
+            elif isinstance(v, ast.Constant) and isinstance(v.value, bool):
                 last_ret[id(e.frame.call_node)] = v.value
             elif isinstance(v, ast.Name) and (fid, v.id) in env:
                 last_ret[id(e.frame.call_node)] = env[(fid, v.id)]
@@ -411,11 +420,54 @@ def _feasible(evs) -> bool:
             neg = False
             if isinstance(t, ast.UnaryOp) and isinstance(t.op, ast.Not):
                 t, neg = t.operand, True
-            if isinstance(t, ast.Name) and (fid, t.id) in env:
-                val = (not env[(fid, t.id)]) if neg else env[(fid, t.id)]
+            def known_of(x):
+                if isinstance(x, ast.UnaryOp) and isinstance(x.op, ast.Not):
+                    k = known_of(x.operand)
+                    return None if k is None else not k
+                if isinstance(x, ast.BoolOp):
+                    ks = [known_of(v) for v in x.values]
+                    if isinstance(x.op, ast.And):
+                        if any(k is False for k in ks):
+                            return False
+                        return True if all(k is True for k in ks) else None
+                    if any(k is True for k in ks):
+                        return True
+                    return False if all(k is False for k in ks) else None
+                if isinstance(x, ast.Name) and isinstance(env.get((fid, x.id)), bool):
+                    return env[(fid, x.id)]
+                if isinstance(x, ast.Call) and id(x) in last_ret:
+                    return last_ret[id(x)]  # the (inlined) call's constant result on this path
+                return _counter_test(x, fid, env)
+
+            known = known_of(t)
+            if known is not None:
+                val = (not known) if neg else known
                 if val != e.data["taken"]:
                     return False
     return True
+
+
+def _counter_test(v, fid, env):
+    """Truth of `c > 0` / `c >= 1` / `c != 0` / `c == 0` / `bool(c)` / `c` for a
+    local counter known to be zero or positive on this path; None if unknown."""
+    if v is None:
+        return None
+    if isinstance(v, ast.Call) and isinstance(v.func, ast.Name) and v.func.id == "bool" and len(v.args) == 1:
+        v = v.args[0]
+    if isinstance(v, ast.Name) and env.get((fid, v.id)) in ("zero", "pos"):
+        return env[(fid, v.id)] == "pos"
+    if isinstance(v, ast.Compare) and len(v.ops) == 1 and isinstance(v.left, ast.Name) and isinstance(v.comparators[0], ast.Constant):
+        st = env.get((fid, v.left.id))
+        k = v.comparators[0].value
+        if st not in ("zero", "pos") or not isinstance(k, int):
+            return None
+        pos = st == "pos"
+        op = v.ops[0]
+        if isinstance(op, ast.Gt) and k == 0 or isinstance(op, ast.GtE) and k == 1 or isinstance(op, ast.NotEq) and k == 0:
+            return pos
+        if isinstance(op, ast.Eq) and k == 0 or isinstance(op, ast.Lt) and k == 1 or isinstance(op, ast.LtE) and k == 0:
+            return not pos
+    return None
 
 
 def _numbering(ctx, soa):
@@ -452,6 +504,37 @@ def _numbering(ctx, soa):
         ok = False
         chk.violation("R14.d", soa, None, f"position_in_job is set to `{stores.get('position_in_job')}`, not the position in the job")
     cnt = stores.get("operation_id")
+    # next(<counter>) with <counter> = itertools.count() / count(0), created once before the loops
+    m = None
+    for st in inner.body:
+        if isinstance(st, ast.Assign) and isinstance(st.targets[0], ast.Attribute) and st.targets[0].attr == "operation_id":
+            v = st.value
+            if isinstance(v, ast.Call) and isinstance(v.func, ast.Name) and v.func.id == "next" and len(v.args) == 1 and isinstance(v.args[0], ast.Name):
+                m = v.args[0].id
+    if m is not None:
+        gens = [n for n in soa.node.body if isinstance(n, ast.Assign) and isinstance(n.targets[0], ast.Name) and n.targets[0].id == m]
+        other_next = [
+            n for n in own_nodes(soa.node) if isinstance(n, ast.Call) and isinstance(n.func, ast.Name) and n.func.id == "next"
+            and n.args and isinstance(n.args[0], ast.Name) and n.args[0].id == m
+        ]
+        g = gens[0].value if len(gens) == 1 else None
+        start0 = (
+            isinstance(g, ast.Call) and ast.unparse(g.func).split(".")[-1] == "count"
+            and (not g.args or (isinstance(g.args[0], ast.Constant) and g.args[0].value == 0))
+            and (len(g.args) < 2 or (isinstance(g.args[1], ast.Constant) and g.args[1].value == 1))
+            and not g.keywords
+        )
+        if g is None:
+            raise AnalysisError("set_operation_attributes: id generator not recognised")
+        if not start0:
+            ok = False
+            chk.violation("R14.d", soa, gens[0], f"operation ids are drawn from `{ast.unparse(g)}`: they do not start at 0 / do not grow by one", loc=soa.loc(gens[0]))
+        elif len(other_next) != 1:
+            ok = False
+            chk.violation("R14.d", soa, None, "the id generator is advanced more than once per operation: ids are not dense")
+        if ok:
+            chk.ok("R14.d", soa.qualname, soa.loc(), "job-major dense numbering from 0 (itertools.count)")
+        return
     init = [n for n in soa.node.body if isinstance(n, ast.Assign) and isinstance(n.targets[0], ast.Name) and n.targets[0].id == cnt]
     incs = [o for o in order if o[0] == "inc" and o[1] == cnt]
     if not (cnt and init and isinstance(init[0].value, ast.Constant) and init[0].value.value == 0):
